@@ -20,21 +20,36 @@ META = {
     "claimed": True,
     "text": "Lean 4 theorems about a hand model of (a) the CRS construction cache, the identity-keyed transformer "
     "cache and CRS eq/hash/pickle/token over a heap with allocation, drop, garbage collection and adversarial id "
-    "reuse (transformer returned for (a,b) converts sys(a)->sys(b) after every history; string form history-free "
-    "for text/int specs; equality is an equivalence under EPSG coherence) and (b) eq/hash/dask-token/pickle of "
-    "BoundingBox, Geometry, GeoBox, GCPGeoBox, Tiles, VariableSizedTiles, GeoboxTiles, XY family, GridSpec, Bin1D "
-    "written field by field as the code computes them (equivalence, eq=>hash, unequal=>different token, clone "
-    "keeps token and equality).  Tied to /repo on every run: random histories replayed in fresh interpreters and "
-    "diffed against the model (str, eq, epsg, cache sizes, transformer checked against a fresh pyproj "
-    "transformer), all pairs of near-identical values per type diffed against the model, attribute sets found "
-    "by introspection, and a model-independent oracle evaluating the property on the real objects.",
+    "reuse (the transformer returned for (a,b) converts sys(a)->sys(b) after every history; every cached "
+    "transformer converts between the systems of its key while cache entries are immortal, witness of a stale "
+    "one when they can be evicted; CRS(spec) always denotes the system of spec even under the key collision; "
+    "string form history-free for text/int specs; equality is an equivalence under EPSG coherence; crs == "
+    "non-CRS never raises) and (b) eq/hash/dask-token/pickle of BoundingBox, Geometry, GeoBox, GCPGeoBox, Tiles, "
+    "VariableSizedTiles, GeoboxTiles (any mix of bases and tilings), XY family, GridSpec, Bin1D written field "
+    "by field as the code computes them (equivalence, eq=>hash, unequal=>different token, clone keeps token and "
+    "equality), their constructors/normalisers (Resolution, res_, shape_, Shape2d==tuple, roi_tiles / "
+    "GeoboxTiles(box, how)), and composition with the C04 / C14 models: equal tokens => same pixel partition / "
+    "same grid.  Tied to /repo on every run: random histories (incl. crs == spec, rejected spellings, cache "
+    "capacity) replayed in fresh interpreters and diffed against the model, all pairs of near-identical values "
+    "per type (1-ulp neighbours, long lists) diffed against the model, constructors diffed exactly, attribute "
+    "sets found by introspection, and model-independent oracles on the real objects (pairs/triples, clones, "
+    "read-only use, across interpreters with different hash seeds).",
     "note": "Known findings (not fixable safely): K1 equal CRSs with different hashes, K2 GCPGeoBox equality by "
-    "mapping identity, K4 CRS equality depends on the lazily cached EPSG code, F16 pyproj object / WKT text cache "
-    "key collision (a pinned test relies on it).  Trusted: pyproj equality/to_epsg/srs as tabulated per run, "
-    "CPython id reuse and GC (modelled adversarially, sampled), dask tokenize = injective print of the normalised "
-    "tuple, pickle bytes determined by printed field values.  Out of scope and not modelled: concurrent CRS "
-    "construction from several threads (cachetools.cached is used without a lock); comparing a CRS with a "
-    "non-CRS object (constructs a CRS inside __eq__); non-finite floats (NaN != NaN breaks reflexivity by IEEE).",
+    "mapping identity, K4 CRS equality depends on the lazily cached EPSG code, K5/F16 pyproj object / WKT text "
+    "cache key collision (a pinned test relies on it); each has a _cex theorem and a replay, the matching "
+    "_partial theorem names the excluding hypothesis.  Trusted: pyproj equality/to_epsg/srs as tabulated per "
+    "run, CPython id reuse and GC (modelled adversarially, sampled), dask tokenize = injective print of the "
+    "normalised tuple, pickle bytes determined by printed field values.  Out of scope and not modelled: "
+    "concurrent CRS construction from several threads (cachetools.cached is used without a lock); non-finite "
+    "floats (NaN != NaN breaks reflexivity by IEEE).  NOT mirrored in the Lean model (exercised by oracles only "
+    "or belonging to other properties): crs.py CRS.__init__ for CRS-like objects with to_wkt (hashable ones are "
+    "their own cache key), CRS.utm, norm_crs 'utm*' branches, _pick_best_crs, crs_units_per_degree, "
+    "authority/units/dimensions/valid_region, the NaN clean-up wrapper around the transformer; geom.py "
+    "BoundingBox and Geometry operations (C07/C16), Geometry(Geometry) cloning; geobox.py GeoBox/GeoboxTiles "
+    "operations (C02/C12/C16), GeoBox.__rmul__; roi.py tiling look-ups (C04, linked by the composition "
+    "theorems); types.py xy_/yx_/ixy_/iyx_/wh_/resxy_ input forms, XY.map, Shape2d.__add__/shrink2, func2map; "
+    "gridspec.py beyond __init__/__eq__ (C14, linked); gcp.py GCPGeoBox crop/pad/zoom (share the mapping), "
+    "GCPMapping p2w/w2p/approx, from_rio.",
     "technique": "Lean 4 proof over hand model + differential correspondence with real code (fresh interpreters "
     "for cache histories)",
     "design_ref": "DESIGN.md §4 C19",
@@ -79,6 +94,9 @@ def lean_ops(ops: list, rng) -> str:
             out.append(f"pk;{op[1]};{op[2]};{pick}")
         elif k == "bk":
             out += [f"mi;{op[1]};{c};{rng.randint(0, 2)}" for c in op[2]]
+        elif k == "es":
+            # `crs == spec`: the model's expansion (Model `eqSpecOps`, variable 99 is used by nothing else)
+            out += [f"{'ms' if op[2] == 'str' else 'mi'};99;{op[3]};{pick}", f"eq;{op[1]};99", "dr;99"]
         elif k in ("dr", "pd", "ep"):
             out.append(f"{k};{op[1]}")
         elif k == "gc":
@@ -142,6 +160,9 @@ def gen_history(rng, W, nops: int, nseg: int) -> list:
         pool = [s for c in codes for s in W.lossless[c]]
         exo = [s for c in codes for s in W.exotic.get(c, [])]
         pool += exo + exo   # compound / 3-D / bound spellings of the segment's systems
+        # two or three code-less systems in all their spellings: `.epsg` drives them into the looked-up-None state
+        for fam in rng.sample(W.codeless, min(len(W.codeless), rng.choice([0, 2, 3]))):
+            pool += fam
         lossy = [("str", n) for n in sorted(W.lossy_names)]
         live: set = set()
         plive: set = set()
@@ -185,8 +206,15 @@ def gen_history(rng, W, nops: int, nseg: int) -> list:
                 ops.append(["tr", a, b, xy])
                 if rng.random() < 0.5:   # same pair, other axis convention: the key must tell them apart
                     ops.append(["tr", a, b, not xy])
-            elif r < 0.85:
+            elif r < 0.83:
                 ops.append(["ep", rng.choice(sorted(live))])
+            elif r < 0.88:
+                # crs == <something that is not a CRS>: goes through the construction cache, must not raise
+                cand = [sp for sp in pool + lossy if sp[0] in ("str", "int")]
+                cand += [("str", W.bad_names[0]), ("str", W.bad_names[1]), ("int", 999999)]
+                kind, x = rng.choice(cand)
+                d = W.einfo.get(x) if kind == "int" else W.info.get(x)
+                ops.append(["es", rng.choice(sorted(live)), kind, x, -1 if d is None else d["sys"]])
             else:
                 ops.append(["eq", rng.choice(sorted(live)), rng.choice(sorted(live))])
         # end of segment: observe the relation, then drop everything
@@ -303,7 +331,10 @@ def judge_records(R: Run, W, ops: list, res: dict, fresh: Dict[str, set], hist_i
             want = rec["sa"] == rec["sb"]
             ok = rec["r"] == want and rec["r_rev"] == rec["r"] and rec["ne_consistent"]
             key = "crs-eq-wrong"
-            if not ok and rec["r"] and not want and rec["lazy"] and rec["epsg_same"] and rec["r_rev"] == rec["r"]:
+            # K4 is: a lazily filled EPSG *code* (70 % match) shared by two different systems; a looked-up
+            # "no code" (None) is not a code and never makes two systems equal
+            if (not ok and rec["r"] and not want and rec["lazy"] and rec["epsg_same"] and rec.get("code") is not None
+                    and rec["r_rev"] == rec["r"]):
                 key = K4
             R.oracle(ok, key, {**case_base, "a": rec["a"], "b": rec["b"]},
                      f"CRS({rec['a']}) == CRS({rec['b']}) is {rec['r']} (reverse {rec['r_rev']}), pyproj says "
@@ -349,6 +380,8 @@ def part_a(R: Run):
     singles += [("str", n) for n in sorted(W.lossy_names)]
     for h, ex in sorted(W.exotic.items()):
         singles += [sp for i, sp in enumerate(ex) if sp not in ex[:i]]
+    for fam in W.codeless:
+        singles += fam
     for i, spec in enumerate(singles):
         ops = spec_ops(W, spec, 0, 0) + [["ep", 0], ["pk", 1, 0], ["eq", 0, 1], ["tr", 0, 1, True]]
         jobs.append((f"single-{i}", ops))
@@ -385,6 +418,20 @@ def part_a(R: Run):
                 if v not in held:
                     held.append(v)
                 ops += [["eq", v, x] for x in held if x != v] + [["ep", v], ["eq", v, 0]]
+        corpus.append(ops)
+    # the lazy `_epsg` in every combination of (not looked up | looked up) for both operands of a compared pair,
+    # for code-less systems: A, B different systems, A2 another spelling of A, plus copies and pickles
+    for i in range(0, len(W.codeless) - 1, 2):
+        fa, fb = W.codeless[i], W.codeless[i + 1]
+        sa, sb = W.info[fa[0][1]]["sys"], W.info[fb[0][1]]["sys"]
+        ops = [["ms", 0, fa[0][1], sa], ["ms", 1, fb[0][1], sb], ["ms", 2, fa[1][1], sa], ["pk", 3, 1]]
+        allp = [["eq", a, b] for a in range(4) for b in range(4) if a != b]
+        ops += allp
+        for v in (0, 1, 2, 3):
+            ops += [["ep", v]] + allp
+        ops += [["mc", 4, 0], ["pk", 5, 0], ["eq", 4, 1], ["eq", 1, 4], ["eq", 5, 1], ["eq", 4, 3], ["eq", 5, 3],
+                ["ep", 5], ["eq", 5, 1], ["eq", 5, 3], ["tr", 0, 1, True], ["tr", 4, 3, True]]
+        ops += spec_ops(W, fb[2], 4, 0) + [["ep", 4], ["eq", 4, 0], ["eq", 4, 1], ["eq", 4, 2]]
         corpus.append(ops)
     for i, ops in enumerate(corpus):
         jobs.append((f"corpus-{i}", ops))
@@ -1266,7 +1313,104 @@ def part_xproc(R: Run):
         R.count(f"xproc-equal-pairs:{t}", n)
 
 
+def part_ctor(R: Run):
+    """constructors / normalisers of the value types, exactly: Resolution(x[, y]), res_, shape_, Shape2d == tuple,
+    GeoboxTiles(box, how) through roi_tiles"""
+    from affine import Affine
+    from dask.base import tokenize
+
+    from odc.geo.crs import CRS
+    from odc.geo.geobox import GeoBox, GeoboxTiles
+    from odc.geo.types import Index2d, Resolution, Shape2d, res_, shape_, xy_
+
+    E = Enc()
+    up = lambda v: math.nextafter(v, math.inf)  # noqa: E731
+    vals = [0, 1, -1, 2, True, False, 0.0, -0.0, 1.0, -1.0, 0.5, -2.5, 0.3, up(0.3), 1e308, 7]
+    for x in vals:
+        R.corr(f"c19 ctor res {E.num(x)} N", lambda x=x: E.xy(Resolution(x)), sig="ctor|Resolution(x)")
+        R.corr(f"c19 ctor resn N {E.num(x)}", lambda x=x: E.xy(res_(x)), sig="ctor|res_(x)")
+        for y in vals:
+            R.corr(f"c19 ctor res {E.num(x)} {E.num(y)}", lambda x=x, y=y: E.xy(Resolution(x, y)),
+                   sig="ctor|Resolution(x,y)")
+        r = Resolution(x, 3)
+        R.corr(f"c19 ctor resn R {E.xy(r)}", lambda r=r: E.xy(res_(r)), sig="ctor|res_(Resolution)")
+        # the value laws on what comes out
+        a, b = Resolution(x), res_(x)
+        R.oracle(a == b and hash(a) == hash(b), "Resolution-ctor-vs-res_", {"x": repr(x)},
+                 f"Resolution({x!r}) and res_({x!r}) differ as values: {a!r} {b!r}")
+    shp_vals = [0, 1, 3, -2, True, 2.7, -2.7, 0.5, -0.0, 4.0, 10 ** 12]
+    for x, y in itertools.product(shp_vals, repeat=2):
+        v = xy_(x, y)
+        R.corr(f"c19 ctor shapen X {E.xy(v)}", lambda v=v: E.xy(shape_(v)), sig="ctor|shape_(XY)")
+        R.corr(f"c19 ctor shapen Q {list_s([E.num(x), E.num(y)])}", lambda x=x, y=y: E.xy(shape_((x, y))),
+               sig="ctor|shape_(seq)")
+        R.corr(f"c19 ctor shapen Q {list_s([E.num(x), E.num(y)])}", lambda x=x, y=y: E.xy(shape_([x, y])),
+               sig="ctor|shape_(seq)")
+        if type(x) is int and type(y) is int:  # pylint: disable=unidiomatic-typecheck
+            sh = Shape2d(x, y)
+            R.corr(f"c19 ctor shapen S {E.xy(sh)}", lambda sh=sh: E.xy(shape_(sh)), sig="ctor|shape_(Shape2d)")
+            R.corr(f"c19 ctor shapen X {E.xy(Index2d(x, y))}", lambda x=x, y=y: E.xy(shape_(Index2d(x, y))),
+                   sig="ctor|shape_(XY)")
+    for t in ((), (1,), (1, 2, 3), (1.5, 2, 3, 4)):
+        R.corr(f"c19 ctor shapen Q {list_s([E.num(v) for v in t])}", lambda t=t: E.xy(shape_(t)),
+               sig="ctor|shape_(seq)|bad-length")
+    tup_vals = [0, 1, 3, 4, True, 3.0, 4.0, 3.5, -0.0]
+    for sx, sy in ((4, 3), (3, 4), (0, 0), (True, 3), (1.5, 3), (4, 3.0)):
+        sh = Shape2d(sx, sy)
+        for a, b in itertools.product(tup_vals, repeat=2):
+            R.corr(f"c19 ctor shtuple {E.xy(sh)} {list_s([E.num(a), E.num(b)])}",
+                   lambda sh=sh, a=a, b=b: bool_s(sh == (a, b)), sig="ctor|Shape2d==tuple")
+            if type(sx) is not float and type(sy) is not float:  # pylint: disable=unidiomatic-typecheck
+                R.oracle((sh == (a, b)) == ((a, b) == sh), "Shape2d-tuple-eq-not-symmetric",
+                         {"shape": repr(sh), "tuple": repr((a, b))}, "Shape2d == tuple differs from tuple == Shape2d")
+        for t in ((), (3,), (3, 4, 5)):
+            R.corr(f"c19 ctor shtuple {E.xy(sh)} {list_s([E.num(v) for v in t])}",
+                   lambda sh=sh, t=t: bool_s(sh == t), sig="ctor|Shape2d==tuple|bad-length")
+    # replay of two recorded observations (allowed by the property, proved as witnesses in Lean):
+    # GridSpec.eq_coarser_than_tiles_cex and resNorm_zero_token_cex
+    from odc.geo.gridspec import GridSpec
+
+    ga, gb = GridSpec("EPSG:3857", (10, 10), Resolution(8, -8)), GridSpec("EPSG:3857", (10, 10), Resolution(8, 8))
+    R.extra["observations"] = {
+        "GridSpec == ignores the sign of the resolution (equal grids, different tile geoboxes)":
+            bool(ga == gb) and ga.tile_geobox((0, 0)) != gb.tile_geobox((0, 0)),
+        "res_(0) == Resolution(0) with different dask tokens ((0.0, -0.0) vs (0.0, 0.0))":
+            res_(0) == Resolution(0) and tokenize(res_(0)) != tokenize(Resolution(0)),
+    }
+    # GeoboxTiles(box, how): regular tilings take the box's shape as base, variable ones ignore it
+    A0 = (1.0, 0.0, 10.0, 0.0, -1.0, 20.0)
+    crs = CRS("EPSG:4326")
+    boxes = [GeoBox((10, 10), Affine(*A0), crs), GeoBox((9, 10), Affine(*A0), crs), GeoBox((10, 9), Affine(*A0), crs),
+             GeoBox((10, 10), Affine(*A0), None), GeoBox((0, 10), Affine(*A0), crs)]
+    hows = [(5, 5), (5, 4), (4, 5), (10, 10), (3, 3), (0, 5), (5, 0), ((5, 5), (5, 5)), ((5, 4), (5, 5)),
+            ((10,), (10,)), ((5, 5), (5, 4)), ((), ()), ((3, 3, 3), (10,))]
+
+    def enc_how(h):
+        return f"HC {list_s(h[0])} {list_s(h[1])}" if isinstance(h[0], tuple) else f"HS {h[0]} {h[1]}"
+
+    items = [(g, h) for g in boxes for h in hows]
+    pairs = [(p, q) for p in items for q in items]
+    if R.quick:
+        pairs = R.rng.sample(pairs, 1500)
+    built = {}
+
+    def build(g, h):
+        k = (id(g), h)
+        if k not in built:
+            built[k] = GeoboxTiles(g, h)
+        return built[k]
+
+    for (g1, h1), (g2, h2) in pairs:
+        def f(g1=g1, h1=h1, g2=g2, h2=h2):
+            a, b = build(g1, h1), build(g2, h2)
+            return f"{bool_s(a == b)} {bool_s(tokenize(a) == tokenize(b))}"
+        R.corr(f"c19 ctor gbtctor G {E.gbox(g1)} {enc_how(h1)} G {E.gbox(g2)} {enc_how(h2)}", f,
+               sig="ctor|GeoboxTiles|" + ("var" if isinstance(h1[0], tuple) else "reg") + "-"
+               + ("var" if isinstance(h2[0], tuple) else "reg"))
+
+
 def run(R: Run):
+    part_ctor(R)
     part_b(R)
     part_a(R)
     R.exhaustive = False
